@@ -1,7 +1,8 @@
 import RpylibModel.Basic.Proto
 import RpylibModel.Model.Mlmc
 import RpylibModel.Model.Alloc
-open Rpylib Rpylib.Mlmc
+import RpylibModel.Model.MlmcCv
+open Rpylib Rpylib.Mlmc Rpylib.MlmcCv
 
 /-- scripted process shared with harness/fake_engine.py (values already discounted with df = 1/2):
     F l k = (16 l + (k+1)/1024)/2, C l k = (16 l − 8 + (k+1)/2048)/2, cost per sample 2^l -/
@@ -46,6 +47,81 @@ def trace : List Oracle → St → List String → List String
     | .cont s' => trace os s' acc
     | .ret s' => (showEnd "ret" s' :: acc).reverse
 
+/-- what the criteria callbacks receive at one read point: `ml vl cl` (first `compute_mc_paths` / `criteria`) and the
+    extrapolated `vl cl` of the second `compute_mc_paths` call -/
+def showFeeds (qa qb qg : Rat) (L : Nat) (lv : Nat → Lvl) : String :=
+  "F " ++ showRatList (mlFed qa L lv) ++ " " ++ showRatList (vlFed qb L lv) ++ " " ++ showRatList (clFed L lv)
+    ++ " " ++ showRatList (vlFed2 qb L lv) ++ " " ++ showRatList (clFed2 qg L lv)
+
+/-! ### control-variate path (Model/MlmcCv.lean) -/
+
+/-- scripted process of `harness/fake_engine.py: FakeCouplingV` (discounted with df = 1/2) -/
+def tF (k : Nat) : Rat := (((37 * k + 11) % 64 : Nat) : Rat) / 16
+def tC (k : Nat) : Rat := (((29 * k + 5) % 64 : Nat) : Rat) / 32
+def procV : Proc := ⟨fun l k => (16 * l + tF k) / 2, fun l k => (16 * l - 8 + tC k) / 2, fun l => 2 ^ l⟩
+
+structure Ctl where
+  kind : String
+  par : Rat
+  notional : Rat
+  price : Rat
+  deriving Inhabited
+
+def mod8 (s : Rat) : Rat := s - 8 * ((s / 8).floor : Rat)
+
+/-- `fake_engine.control_value`, times notional, discounted -/
+def ctlVal (c : Ctl) (s : Rat) : Rat :=
+  (c.notional * (if c.kind == "sq" then mod8 s * mod8 s else if c.kind == "call" then max (mod8 s - c.par) 0 else s - c.par)) / 2
+
+def parseCtl? (s : String) : Option Ctl :=
+  match s.splitOn ":" with
+  | [k, a, n, pr] => do
+      let a ← parseRat? a
+      let n ← parseRat? n
+      let pr ← parseRat? pr
+      some ⟨k, a, n, pr⟩
+  | _ => none
+
+def cvProcOf (cs : List Ctl) : CvProc :=
+  { k := cs.length
+    XF := fun l j i => ctlVal (cs.getD j default) (16 * l + tF i)
+    XC := fun l j i => ctlVal (cs.getD j default) (16 * l - 8 + tC i)
+    price := fun j => (cs.getD j default).price
+    coef := coef1 }
+
+/-- one read point with control variates: raw rows, control rows, adjusted rows, and the results read from the adjusted arrays -/
+def showReadCv (q : Rat × Rat × Rat) (k : Nat) (s : CvSt) : String :=
+  let ls := levels s.base
+  let lv := fun l => s.base.lv l
+  let xs := (List.range k).map (fun j =>
+    " " ++ showListList showRat (ls.map (fun l => (List.range (s.cv l).xrows.length).map (xCol true (s.cv l).xrows j)))
+    ++ " " ++ showListList showRat (ls.map (fun l => (List.range (s.cv l).xrows.length).map (xCol false (s.cv l).xrows j))))
+  "V " ++ toString s.base.L ++ " " ++ showNatList (ls.map (fun l => (lv l).N))
+    ++ " " ++ showList (fun (b : Bool) => if b then "1" else "0") (ls.map (fun l => (s.cv l).err))
+    ++ " " ++ showListList showRat (ls.map (fun l => (lv l).rows.map rowFine))
+    ++ " " ++ showListList showRat (ls.map (fun l => (lv l).rows.map rowCoarse))
+    ++ " " ++ showListList showRat (ls.map (fun l => (s.cv l).adj.map rowFine))
+    ++ " " ++ showListList showRat (ls.map (fun l => (s.cv l).adj.map rowCoarse))
+    ++ " " ++ showRat (priceOfCv s) ++ " " ++ showRat (priceOf s.base)
+    ++ " " ++ showRatList (ls.map (fun l => dpMean (adjLvl s l)))
+    ++ " " ++ showRatList (ls.map (fun l => vlOf (adjLvl s l)))
+    ++ " " ++ showRatList (ls.map (fun l => clOf (adjLvl s l)))
+    ++ " " ++ showRatList (ls.map (fun l => fineMean (adjLvl s l)))
+    ++ String.join xs ++ " " ++ showFeeds q.1 q.2.1 q.2.2 s.base.L (adjLvl s)
+
+def showEndCv (tag : String) (s : CvSt) : String :=
+  showEnd tag s.base ++ " " ++ showNatList ((levels s.base).map (fun l => (s.cv l).adj.length)) ++ " " ++
+    showNatList ((levels s.base).map (fun l => (s.cv l).xrows.length))
+
+def traceCv (q : Rat × Rat × Rat) (c : CvProc) : List Oracle → CvSt → List String → List String
+  | [], s, acc => (showEndCv "cont" s :: acc).reverse
+  | o :: os, s, acc =>
+    let s1 := cvAfterPasses procV c s
+    let acc := showReadCv q c.k s1 :: acc
+    match iterCvAfter o s1 with
+    | .cont s' => traceCv q c os s' acc
+    | .ret s' => (showEndCv "ret" s' :: showReadCv q c.k s' :: acc).reverse
+
 def step (t : List String) : String :=
   match t with
   | ["price", l0, n0, lmax, ninit, hist] =>
@@ -56,6 +132,30 @@ def step (t : List String) : String :=
       | .cont s => " # ".intercalate (trace os s [])
       | .ret s => showEnd "ret" s
     | _, _, _, _, _ => "bad-op"
+  | ["pricecv", l0, n0, lmax, hist, ctls, qa, qb, qg] =>
+    match parseNat? l0, parseNat? n0, parseNat? lmax,
+          (if hist == "-" then some [] else (hist.splitOn ";").mapM parseOracle?), (ctls.splitOn ";").mapM parseCtl?,
+          parseRat? qa, parseRat? qb, parseRat? qg with
+    | some l0, some n0, some lmax, some os, some cs, some qa, some qb, some qg =>
+      if cs.length != 1 then "bad-op" else
+      let c := cvProcOf cs
+      match cvLoopHead (initCv l0 n0 lmax 0) with
+      | .cont s => " # ".intercalate (traceCv (qa, qb, qg) c os s [])
+      | .ret s => showEndCv "ret" s
+    | _, _, _, _, _, _, _, _ => "bad-op"
+  | ["fixedcv", lmax, mc, ctls] =>
+    match parseNat? lmax, parseNat? mc, (ctls.splitOn ";").mapM parseCtl? with
+    | some lmax, some mc, some cs =>
+      if cs.length != 1 then "bad-op" else showReadCv (2, 4, 2) cs.length (fixedRunCv procV (cvProcOf cs) lmax mc)
+    | _, _, _ => "bad-op"
+  | ["feeds", l0, n0, lmax, qa, qb, qg, hist] =>
+    match parseNat? l0, parseNat? n0, parseNat? lmax, parseRat? qa, parseRat? qb, parseRat? qg,
+          (if hist == "-" then some [] else (hist.splitOn ";").mapM parseOracle?) with
+    | some l0, some n0, some lmax, some qa, some qb, some qg, some os =>
+      match loopHead (init l0 n0 lmax 0) with
+      | .cont s => " # ".intercalate ("-" :: (reads proc os s).map (fun r => showFeeds qa qb qg r.L r.lv))
+      | .ret _ => "-"
+    | _, _, _, _, _, _, _ => "bad-op"
   | ["fixed", lmax, mc] =>
     match parseNat? lmax, parseNat? mc with
     | some lmax, some mc => showRead (fixedRun proc lmax mc)
